@@ -95,10 +95,43 @@ GSpec == GInit /\ [][GNext]_gvars
 Out == [init |-> init, steps |-> hist]
 Emit == Len(hist) # E \/ PrintT(<<"BEHAVIOUR", ToJson(Out)>>)
 
+\* -simulate: TLC's simulator first computes ALL successors of a state and then picks one, which makes
+\* every step as expensive as the whole alphabet; here the call is drawn with RandomElement instead
+\* (one successor per state; reproducible: TLC's generator is seeded by -seed).
+\* (each random value is bound by \E over a singleton so that it is drawn exactly once)
+One(S) == {RandomElement(S)}
+GStepRnd ==
+    \E kind \in One(1..10) :
+    CASE kind \in {1, 2} ->
+           \E n \in One(WLens) : LET b == Data(J, n) X(S, dd) == DWrite(S, dd, b)
+           IN Step(Call("Write", b, 0, 0, 0), IWrite(f, b), X)
+      [] kind \in {3, 4} ->
+           \E n \in One(WLens), o \in One(0..(Size + Slack)) : LET b == Data(J, n) X(S, dd) == DWriteAt(S, dd, b, o)
+           IN Step(Call("WriteAt", b, o, 0, 0), IWriteAt(f, b, o), X)
+      [] kind \in {5, 6} ->
+           \E k \in One(Ks) : LET X(S, dd) == DRead(S, dd, k)
+           IN Step(Call("Read", <<>>, 0, 0, k), IRead(f, k), X)
+      [] kind = 7 ->
+           \E o \in One((0 - Size - Slack)..(Size + Slack)), w \in One(0..2) : LET X(S, dd) == DSeek(S, dd, o, w)
+           IN Step(Call("Seek", <<>>, o, w, 0), ISeek(f, o, w), X)
+      [] kind = 8 ->
+           \E n \in One(0..(Size + Slack)) : LET X(S, dd) == DTruncate(S, dd, n)
+           IN Step(Call("Truncate", <<>>, n, 0, 0), ITruncate(f, n), X)
+      [] kind = 9 ->      \* a seek to a valid target inside the file (or an invalid whence)
+           \E w \in One(0..3), t \in One(0..Size) :
+           LET o == IF w = 2 THEN t - Size ELSE IF w = 1 THEN t - f.cur ELSE t
+               X(S, dd) == DSeek(S, dd, o, w)
+           IN Step(Call("Seek", <<>>, o, w, 0), ISeek(f, o, w), X)
+      [] OTHER ->
+           \E c \in One({"Size", "Sync", "GetNode"}) :
+           CASE c = "Size" -> LET X(S, dd) == DSize(S, dd) IN Step(Call("Size", <<>>, 0, 0, 0), ISize(f), X)
+             [] c = "Sync" -> LET X(S, dd) == DSync(S, dd) IN Step(Call("Sync", <<>>, 0, 0, 0), ISync(f), X)
+             [] OTHER      -> LET X(S, dd) == DGetNode(S, dd) IN Step(Call("GetNode", <<>>, 0, 0, 0), IGetNode(f), X)
+
 Flush == /\ Len(hist) = E
          /\ PrintT(<<"BEHAVIOUR", ToJson(Out)>>)
          /\ hist' = <<>>
-         /\ \E n \in InitSizes, root \in Roots : Start(n, root)
-GNextSim == IF Len(hist) = E THEN Flush ELSE GStep
+         /\ \E n \in One(InitSizes), root \in One(Roots) : Start(n, root)
+GNextSim == IF Len(hist) = E THEN Flush ELSE GStepRnd
 GSpecSim == GInit /\ [][GNextSim]_gvars
 =============================================================================
